@@ -43,6 +43,11 @@ predefine_macro(CPPParser &parser, const string &option) {
     macro_name = option;
   }
 
+  if (macro_name.empty() || isspace((unsigned char)macro_name[0])) {
+    cerr << "Invalid macro name in -D option: '" << option << "'\n";
+    exit(1);
+  }
+
   cerr << "Predefining " << macro_name << " as " << macro_def << "\n";
 
   CPPManifest *macro = new CPPManifest(parser, macro_name, macro_def);
